@@ -118,7 +118,14 @@ def hyp_main(name, strategy, run, max_examples_default=50, stateful_steps=None):
         print("Falsifiable %s: %s" % (name, str(e)[:2000]))
         STATS.dump(False)
         return 1
-    except Exception:
+    except BaseException as e:
+        if "Flaky" in type(e).__name__ and STATS.failures:
+            # the case failed once and passed when Hypothesis re-ran it: schedule-dependent. The failing case is on disk;
+            # the driver replays it (confirm_replays) and reports it as inconclusive when it does not fail again.
+            print("Falsifiable (not reproduced by Hypothesis' own re-run) %s: %s" % (name, STATS.fail_message[:1500]))
+            STATS.count("flaky_failures")
+            STATS.dump(False)
+            return 1
         traceback.print_exc()
         STATS.dump(False)
         # a harness problem (exception outside the oracle) is not a violation
